@@ -92,6 +92,8 @@ def run(chk):
 
     chk.rule("R5", "tests of a source dtype against concrete types in cast compilation / validation are made on without_const(..) of it")
 
+    chk.rule("R6", "type-level helper functions of the cast compilers are total over the int / float family that reaches them (interpreted from source)")
+
     ce, func, valid = fold_valid_casts(chk, m)
     exp, rows = documented_table(T)
     chk.floor("R1", "folded VALID_CASTS pairs", len(valid), 100)
@@ -250,3 +252,93 @@ def run(chk):
 
     constness.run_rule(chk, "R5", m.sym, scope=("backend.", "tree.col_expr", "tree.types"), floor=4,
                        only_funcs={"compile_cast", "cast_compiled", "is_valid_cast"})  # fmt: skip
+
+    # ---- R6 type-level helpers of the cast compilers, interpreted over the type family that reaches them
+    _type_helpers(chk, m, valid)
+
+
+def _type_helpers(chk, m, valid_pairs):
+    from .. import constness
+    from ..catalogue import DT, TypeCtor, _type_fn
+    from ..interp import Func, Interp, PyRaise
+    from ..typefns import LazyNS
+
+    T = m.cat.types
+    ints = [DT(f"{u}Int{b}") for u in ("U", "") for b in (8, 16, 32, 64)] + [DT("Int")]
+    floats = [DT("Float32"), DT("Float64"), DT("Float"), DT("Decimal")]
+    n_helpers = 0
+    m_types_env(m)
+    st = m._source_types
+    for short in ("backend.sql", "backend.sqlite", "backend.postgres", "backend.mssql", "backend.duckdb", "backend.ibm_db2"):
+        try:
+            mod = chk.repo.mod(short)
+        except AnalysisError:
+            continue
+        for q, f in mod.defs.items():
+            if not isinstance(f, ast.FunctionDef) or f.name not in ("compile_cast", "cast_compiled"):
+                continue
+            helpers = {n.name: n for n in ast.walk(f) if isinstance(n, ast.FunctionDef) and n is not f}
+            if not helpers:
+                continue
+            ff = constness.FuncFacts(f, m.sym, mod)
+            for c in calls_in(f):
+                if not (isinstance(c.func, ast.Name) and c.func.id in helpers and len(c.args) == 1 and not c.keywords):
+                    continue
+                h = helpers[c.func.id]
+                if len(h.args.args) != 1:
+                    continue
+                arg = c.args[0]
+                # which (source, target) pairs reach the call: the dominating is_int()/is_float() tests on the source dtype
+                # and on the target type, restricted to the pairs Cast accepts (VALID_CASTS or an implicit conversion)
+                tests = " ".join(norm(t) for t, pol in dominating_tests(c, f) if pol)
+                atext = norm(arg)
+
+                def fam_of(text):
+                    out = []
+                    if f"{text}.is_int()" in tests:
+                        out += ints
+                    if f"{text}.is_float()" in tests:
+                        out += floats
+                    return out
+
+                src_texts = [t for t in ("cast.val.dtype()", "types.without_const(cast.val.dtype())", "val_type") if fam_of(t)]
+                src_fam = fam_of(src_texts[0]) if src_texts else ints + floats + [DT("String"), DT("Bool"), DT("Date"), DT("Datetime")]
+                tgt_fam = fam_of("cast.target_type") or ints + floats + [DT("String"), DT("Date"), DT("Datetime")]
+                pairs = {(s_, t_) for s_ in src_fam for t_ in tgt_fam if (s_, t_) in valid_pairs or st.converts_to(s_, t_)}
+                if atext == "cast.target_type":
+                    fam = sorted({t_ for _s, t_ in pairs}, key=repr)
+                elif fam_of(atext):
+                    fam = sorted({s_ for s_, _t in pairs}, key=repr)
+                else:
+                    continue
+                if not fam:
+                    continue
+                state = ff.state(arg)
+                if state == constness.MAYBE:
+                    fam = fam + [DT("Const", t) for t in fam]
+                n_helpers += 1
+                env = {k: v for k, v in T.env.items() if isinstance(v, TypeCtor)}
+                env["types"] = LazyNS(dict(m_types_env(m)))
+                env["type"] = _type_fn
+                it = Interp(mod, env)
+                fn = Func(h, env, it)
+                bad = []
+                for t in fam:
+                    try:
+                        it.call(fn, [t], {}, c, env)
+                    except PyRaise as p:
+                        bad.append((t, p.name, p.msg))
+                chk.ob("R6", mod, c, f"{q}: {c.func.id}({atext}) is defined for all {len(fam)} types that reach it", not bad,
+                       f"`{c.func.id}({atext})` fails for {len(bad)} of the {len(fam)} types that can reach it, e.g. {bad[0][0]!r} -> {bad[0][1]}: {bad[0][2]} "
+                       "(a constant operand carries a Const wrapper, `pdt.Int()` has no width in its class name): the cast dies with an internal error at compile time" if bad else "")  # fmt: skip
+    chk.floor("R6", "type-level helper call sites interpreted", n_helpers, 2)
+
+
+def m_types_env(m):
+    """functions of tree/types.py (without_const, is_const ...) as interpreted closures"""
+    from ..typefns import SourceTypes
+
+    st = getattr(m, "_source_types", None)
+    if st is None:
+        st = m._source_types = SourceTypes(m.cat)
+    return st.tenv
